@@ -59,6 +59,7 @@ package validators
 //@   ensures jailed: val != nil && misses > 12 && !isgrace ==> busJailedUntil(v.bus.candidates, address) == mod(height + (types.CurrentChainID == types.ChainTestnet ? 354 : 17280), 18446744073709551616)
 //@   ensures gracenojail: val != nil && misses > 12 && isgrace ==> busJailedUntil == old(busJailedUntil)
 //@   ensures tolerated: val != nil && misses <= 12 ==> val.toDrop == old(val.toDrop) && busOffline == old(busOffline) && busJailedUntil == old(busJailedUntil) && val.AbsentTimes == w
+//@   modifies bit, Validator.toDrop, Validator.AbsentTimes, Validator.isDirty, busOffline, busJailedUntil, busCache, eventLog
 
 //@ # C18: byzantine validator: stake zero, dropped
 //@ func (*Validators).PunishByzantineValidator
